@@ -83,6 +83,10 @@ extern int mpt_data_convert_float64(const double *from, MPT_TYPE(type) type, voi
 			if ((val > FLT_MAX && val <= DBL_MAX) || (val < -FLT_MAX && val >= -DBL_MAX)) {
 				return MPT_ERROR(BadValue);
 			}
+			/* non-zero value vanishes in target type */
+			if (val != 0 && (float) val == 0) {
+				return MPT_ERROR(BadValue);
+			}
 			if (dest) *((float *) dest) = val;
 			return sizeof(float);
 		case 'd':
@@ -132,11 +136,19 @@ extern int mpt_data_convert_exflt(const long double *from, MPT_TYPE(type) type, 
 			if ((val > FLT_MAX && val <= LDBL_MAX) || (val < -FLT_MAX && val >= -LDBL_MAX)) {
 				return MPT_ERROR(BadValue);
 			}
+			/* non-zero value vanishes in target type */
+			if (val != 0 && (float) val == 0) {
+				return MPT_ERROR(BadValue);
+			}
 			if (dest) *((float *) dest) = val;
 			return sizeof(float);
 		case 'd':
 			/* finite value exceeds target range */
 			if ((val > DBL_MAX && val <= LDBL_MAX) || (val < -DBL_MAX && val >= -LDBL_MAX)) {
+				return MPT_ERROR(BadValue);
+			}
+			/* non-zero value vanishes in target type */
+			if (val != 0 && (double) val == 0) {
 				return MPT_ERROR(BadValue);
 			}
 			if (dest) *((double *) dest) = val;
